@@ -23,6 +23,7 @@ const (
 	DevHTTP403    = "http403"
 	DevHTTP502E   = "http502-empty"  // error status with an empty body (gateway in front of the device)
 	DevHTTP400J   = "http400-json"   // error status with a JSON/XML error document
+	DevStallBody = "stall-body" // status line, headers and the first bytes of the body arrive, then nothing more
 	DevRedirClose = "redirect-close" // 307 to a location that keeps the query; that request is then closed
 	DevRedirLoop  = "redirect-loop"  // 307 to itself until the client gives up
 	DevMalformed  = "malformed"
@@ -31,6 +32,11 @@ const (
 	DevJobFail    = "job-fail"   // PAN-OS commit job result FAIL
 	DevJobPend    = "job-pend"   // PAN-OS: PEND twice, then the result
 )
+
+// StallBodyMax: how long a client may stay connected to a reply that
+// stalled inside its body before it counts as waiting forever (the
+// configured time-out of the runs is 1 s).
+var StallBodyMax = 25 * time.Second
 
 // HTTPS is a TLS server wrapping the PAN-OS or the NSX model.
 type HTTPS struct {
@@ -53,6 +59,7 @@ type HTTPS struct {
 	Trans    []Rec
 	point    int
 	redirect string // pending redirect deviation
+	Hung     int    // replies stalled inside the body that the client never gave up on
 	Srv      *httptest.Server
 	Commits  int
 	jobPolls int
@@ -120,6 +127,24 @@ func (h *HTTPS) serve(w http.ResponseWriter, r *http.Request) {
 		// longer than the client's time-out (config: timeout = 1)
 		h.mu.Unlock()
 		time.Sleep(1500 * time.Millisecond)
+		h.mu.Lock()
+		return
+	case DevStallBody:
+		h.rec(desc, class, dev, false)
+		w.Header().Set("Content-Length", "100000")
+		w.WriteHeader(200)
+		w.Write([]byte("<response status="))
+		if f, ok := w.(http.Flusher); ok {
+			f.Flush()
+		}
+		// the client must give up on its own (config: timeout = 1); if it is
+		// still connected after StallBodyMax it would wait forever
+		h.mu.Unlock()
+		select {
+		case <-r.Context().Done():
+		case <-time.After(StallBodyMax):
+			h.Hung++
+		}
 		h.mu.Lock()
 		return
 	case DevClose:
